@@ -30,6 +30,10 @@ func c16Trans(thorough bool) func(c *Ctx, pre *Node, st Step, res *Result, post 
 				continue
 			}
 			errnos := []string{"EIO"}
+			if op.Kind == "rename" {
+				// the errno classes a caller might be tempted to read as "somebody else has done it already"
+				errnos = append(errnos, "EACCES", "EEXIST")
+			}
 			if thorough {
 				switch op.Kind {
 				case "create":
@@ -38,6 +42,8 @@ func c16Trans(thorough bool) func(c *Ctx, pre *Node, st Step, res *Result, post 
 					errnos = append(errnos, "ENOSPC")
 				case "open", "readdir":
 					errnos = append(errnos, "EACCES")
+				case "rename", "remove":
+					errnos = append(errnos, "EPERM")
 				}
 			}
 			tgt := c.targetClass(op.Path)
